@@ -256,6 +256,14 @@ func runC11(c *Ctx) {
 	for _, n := range c11NearMiss {
 		docs = append(docs, n+"\n", "a "+n+" b\n", "*"+n+"*\n", "- "+n+"\n  "+n+"\n", "> "+n+"\n", "# "+n+"\n", n+"\n"+n+"\n", "("+n+")\n", "["+n+"](/u)\n", "**"+n+"** "+n+"\n\n"+n+"\n===\n")
 	}
+	// every short sequence over each extension's trigger alphabet (those free of the trigger bytes
+	// of an extension are its near misses), alone and as link text
+	for _, d := range triggerTokenDocs() {
+		docs = append(docs, d)
+		if !strings.Contains(d, "\n") {
+			docs = append(docs, "[see "+d+"](/u) x\n")
+		}
+	}
 	// words x line endings x inline wrappers (soft / hard breaks next to wide and narrow characters)
 	for _, w1 := range []string{"語", "a", "é", "、", "a!", "（"} {
 		for _, w2 := range []string{"語", "b", "。", "!b"} {
